@@ -165,6 +165,25 @@ fn check_raw(ctx: &mut Ctx, lit: &str) {
                         ctx.fail("rawnumber-is-accessors", format!("RawNumber {:?}: is_u64 {} is_i64 {} vs {:?} {:?}", lit, rn.is_u64(), rn.is_i64(), wu, wi));
                     }
                 }
+                if negzero {
+                    // `-0` denotes the float -0.0 (C07): the f64 accessor keeps the sign; the integer
+                    // accessors are not judged for this one literal
+                    if rn.as_f64().map(f64::to_bits) != Some((-0.0f64).to_bits()) {
+                        ctx.fail("rawnumber-f64-accessor:negative-zero", format!("RawNumber {:?}: as_f64 {:?} (sign of zero lost)", lit, rn.as_f64()));
+                    }
+                }
+                if rn.is_f64() != rn.as_f64().is_some() || rn.is_f64() != exactf.is_some() {
+                    ctx.fail("rawnumber-is-f64", format!("RawNumber {:?}: is_f64 {} but as_f64 {:?}, the literal is finite: {}", lit, rn.is_f64(), rn.as_f64(), exactf.is_some()));
+                }
+                // conversion to a parsed Number: the C07 class of the literal, or an error when it is not finite
+                match (sonic_rs::Number::try_from(rn.clone()), w) {
+                    (Err(_), RefNum::Inf) => {}
+                    (Ok(n), RefNum::U(u)) if n.as_u64() == Some(u) && n.is_u64() => {}
+                    (Ok(n), RefNum::I(i)) if n.as_i64() == Some(i) && n.is_i64() && !n.is_u64() => {}
+                    (Ok(n), _) if negzero && n.is_f64() && n.as_f64().map(f64::to_bits) == Some((-0.0f64).to_bits()) => {}
+                    (Ok(n), RefNum::F(f)) if n.is_f64() && n.as_f64().map(f64::to_bits) == Some(f.to_bits()) => {}
+                    (got, _) => ctx.fail("rawnumber-to-number", format!("Number::try_from(RawNumber {:?}) = {:?}, the literal denotes {:?}", lit, got.map_err(|e| e.to_string()), w)),
+                }
             }
             Err(e) => {
                 if valid {
